@@ -33,7 +33,7 @@ ASSUMPTIONS = [
 FLOOR = {'quick': 1000, 'thorough': 5000}
 SPACE = {'quick': 'patterns<=5 x names<=5; rule lists<=3 (fresh System each); op sequences<=4',
          'thorough': 'patterns<=7 x names<=5; rule lists<=4; op sequences<=6'}
-CAP = {'quick': 240.0, 'thorough': 2400.0}
+CAP = {'quick': 900.0, 'thorough': 3600.0}
 
 SYMS = 'ab.*?[]!'
 NAME_SYMS = 'ab.'
